@@ -901,9 +901,16 @@ def check_single(case, M, rng):
     if mans[0][0] == "ok":
         model_tbl = mans[0][1][0]
         if kind == "size":
-            hans = M.ask([Sym("c13.checksize"), dw, W.ty_wire(tr), spec["max_size"], ng, var["actual"], rewire(model_tbl), [], FUEL])
+            hans = M.ask([Sym("c13.checksize"), dw, W.ty_wire(tr), spec["max_size"], ng, var["actual"], rewire(model_tbl), [term_wire(t) for t in cand], FUEL])
         else:
-            hans = M.ask([Sym("c13.checkatmost"), dw, W.ty_wire(tr), spec["name"], spec["k"], ng, rewire(model_tbl), [], FUEL])
+            hans = M.ask([Sym("c13.checkatmost"), dw, W.ty_wire(tr), spec["name"], spec["k"], ng, rewire(model_tbl), [term_wire(t) for t in cand], FUEL])
+        # theorems about the construction itself, re-checked on the model's own grammar for this input
+        if var["stack_key"] and (first_order or var["actual"] or kind == "atmost"):
+            for t, hb in zip(cand, hans[5]):
+                if hb[1] != hb[4]:
+                    raise RuntimeError(f"the model's grammar differs from the specification on {term_str(t)} (contradicts C13_size_vis / C13_atmost_vis)")
+            if (ng >= 2 or ng < 0) and hans[6] != "none" and int(hans[6]) != len(members):
+                raise RuntimeError(f"programsR of the model's grammar is {hans[6]}, the language has {len(members)} programs (contradicts C13_count_size / C13_count_atmost)")
         hyp["sub"], hyp["closed"] = hans[0] == "1", hans[1] == "1"
         hyp["start"] = json.dumps(_plain(model_tbl[1])) in {json.dumps(e[0]) for e in _plain(model_tbl[2])}
     hyp_ngram = ng >= 2 or ng < 0 or not forb
